@@ -261,6 +261,10 @@ def compare(op, a, b):
                 raise Out('blank against a negative number')
             x, y = (Fraction(0), other.fr) if ka == 'blank' else (other.fr, Fraction(0))
         elif ko == 'text':
+            if _numeric_text(other) is not None:
+                # the runtime compares a numeric-looking text as a number (pinned test test_compare_str_as_number); the
+                # text clauses of C10 are stated for texts that neither int() nor float() accepts - same convention here
+                raise Out('blank against a numeric-looking text (C10)')
             x, y = ('', other) if ka == 'blank' else (other, '')
         else:
             raise Out('blank against a boolean')
